@@ -79,8 +79,12 @@ func cmdJob(args []string) {
 		res = codec.Run(*uni, *tier, *deadline)
 	case *prop == "C19":
 		res = runC19(*uni, *tier)
+	case *prop == "C18" && strings.HasPrefix(*uni, "ptrkeys/"):
+		res = hist.ExplorePtrKeys(*uni, *tier, *deadline)
 	case *prop == "C17" && strings.HasPrefix(*uni, "churn/"):
 		res = hist.ExploreChurn(*uni, *tier, *deadline)
+	case *prop == "C17" && (strings.HasPrefix(*uni, "release/") || strings.HasPrefix(*uni, "bulk/")):
+		res = hist.ExploreRelease(*uni, *tier, *deadline)
 	case *prop == "C17":
 		u, err := hist.FindUniverse("C17", *tier, *uni)
 		if err != nil {
